@@ -110,6 +110,8 @@ func checkC16(p *core.Program, r *core.Report) {
 	importObligations(p, r, "C11", map[string]bool{"R4": true}, "R14", "a migration does not rewrite every reference it should, so a template evaluates differently after it")
 	r.Rule("R15", "a digit test covers every digit: where these packages classify a byte or rune of the input by a range that ends at '9', the range starts at '0' (a number that begins with 0 — `0`, `0.5` — is a number; StringOrNumber otherwise rejects a valid legacy definition)")
 	c16R15(p, r, fns)
+	r.Rule("R16", "things are merged only when their names are equal: where the legacy migration de-duplicates by a text-keyed map (a lookup and an insert on the same map in one function), the insert uses the key of the lookup and that key is, unchanged, the name given to the object that is created when the lookup fails — a folded or trimmed key merges rules whose categories differ (Yes / YES) and the second rule's exit and destination disappear from the migrated flow")
+	c16R16(p, r)
 	r.Rule("R13", "null elements are rejected at load: every JSON member of a definition struct (flow, node, action, router, case, wait types) that is a slice or map of pointers to structs carries `dive,required` in its validate tag — the repository's idiom (nodes, exits) for turning `[null]` into a validation error — since the code that later ranges over the slice dereferences each element")
 	c16R13(p, r)
 	r.Rule("R12", "a truncation is decided by the value it cuts: where a call that truncates X to N characters (stringsx.Truncate, directly or through a local helper) is controlled by a length comparison, a comparison against N measures X itself, and a comparison of len(X) uses a bound of at most N")
@@ -1337,6 +1339,88 @@ func c16R13(p *core.Program, r *core.Report) {
 }
 
 // ---------------------------------------------------------------------------------------------- R15
+
+// c16R16: de-duplication maps of the legacy migration are keyed by the name the merged object gets.
+func c16R16(p *core.Program, r *core.Report) {
+	n := 0
+	for _, fn := range p.ModuleFunctions() {
+		if core.RelPkg(core.FuncPkgPath(fn)) != "flows/definition/legacy" || p.IsTestFile(fn.Pos()) || fn.Synthetic != "" {
+			continue
+		}
+		lookups := map[ssa.Value][]*ssa.Lookup{}
+		updates := map[ssa.Value][]*ssa.MapUpdate{}
+		var maps []ssa.Value // in instruction order, so that the ordinals are stable
+		core.EachInstr(fn, false, func(_ *ssa.Function, in ssa.Instruction) {
+			switch x := in.(type) {
+			case *ssa.Lookup:
+				if mt, ok := x.X.Type().Underlying().(*types.Map); ok && isStringType(mt.Key()) {
+					if _, isPtr := mt.Elem().Underlying().(*types.Pointer); isPtr {
+						if len(lookups[x.X]) == 0 {
+							maps = append(maps, x.X)
+						}
+						lookups[x.X] = append(lookups[x.X], x)
+					}
+				}
+			case *ssa.MapUpdate:
+				if mt, ok := x.Map.Type().Underlying().(*types.Map); ok && isStringType(mt.Key()) {
+					updates[x.Map] = append(updates[x.Map], x)
+				}
+			}
+		})
+		ord := 0
+		for _, m := range maps {
+			// the idiom: looked up and then inserted in the same pass of the same loop
+			var ls []*ssa.Lookup
+			var us []*ssa.MapUpdate
+			for _, l := range lookups[m] {
+				for _, u := range updates[m] {
+					h := innermostLoopHeader(l.Block())
+					if h != nil && h == innermostLoopHeader(u.Block()) && (l.Block() == u.Block() || core.Reachable(l.Block(), map[*ssa.BasicBlock]bool{h: true})[u.Block()]) {
+						ls = append(ls, l)
+						us = append(us, u)
+					}
+				}
+			}
+			if len(us) == 0 {
+				continue
+			}
+			if _, isMake := m.(*ssa.MakeMap); !isMake {
+				continue // a map that is filled in this very function: the de-duplication idiom
+			}
+			n++
+			ord++
+			key := fmt.Sprintf("%s/dedup-map#%d", core.FuncName(fn), ord)
+			bad := ""
+			for _, l := range ls {
+				same := core.BackSlice(l.Index, nil)
+				for _, u := range us {
+					if !same[core.StripConv(u.Key)] && u.Key != l.Index {
+						bad = "the insert at " + p.Pos(u.Pos()) + " uses another key than the lookup"
+					}
+				}
+				// the key names what is created: it is an argument of a constructor call of this package in the function
+				named := false
+				for _, cs := range core.Calls(fn, false) {
+					g := cs.Common().StaticCallee()
+					if g == nil || core.FuncPkgPath(g) != core.FuncPkgPath(fn) {
+						continue
+					}
+					for _, a := range cs.Common().Args {
+						if a == l.Index || core.StripConv(a) == core.StripConv(l.Index) {
+							named = true
+						}
+					}
+				}
+				if !named && bad == "" {
+					bad = "the key of the lookup at " + p.Pos(l.Pos()) + " is not what the created object is named by: it is derived (folded, trimmed, …) from the name, so objects with different names are merged"
+				}
+			}
+			r.Check(bad == "", "R16", key, p.Pos(ls[0].Pos()), "looked up, inserted and named by one value", "in "+core.FuncName(fn)+" "+bad+" — two legacy rules whose categories differ end up in one category with one exit, and the other rule's destination is no longer reachable in the migrated flow")
+		}
+	}
+	r.Count("legacy_dedup_maps", n)
+	r.Require("legacy_dedup_maps", n, 1)
+}
 
 func c16R15(p *core.Program, r *core.Report, fns []*ssa.Function) {
 	n := 0
